@@ -87,7 +87,7 @@ fn build_barrier(raw: &Raw, droppable: bool) -> Scenario {
     // afterwards: everything must be rejected / inert
     for i in 0..3u16 {
         let a = b.action(s, 0);
-        b.s.threads[st].push(Op::Dispatch { act: a, via: VIAS[((knob(raw, 13) + i) % 3) as usize] });
+        b.s.threads[st].push(Op::Dispatch { act: a, via: VIAS[((knob(raw, 13) % 3 + i) % 3) as usize] });
     }
     let f = b.action(s, 0);
     let e = b.eff(EffKind::Thunk(vec![f]), false, Stall::None);
